@@ -274,6 +274,9 @@ def main(argv):
         if a.prop == "C14":
             from . import c14
             return c14.run(a.tier, seed)
+        if a.prop == "C19":
+            from . import c19
+            return c19.run(a.tier, seed)
         if a.prop == "C17":
             return run_c17(a.tier, seed, a.ops.split(",") if a.ops else None, a.types.split(",") if a.types else None)
         print("unknown property", a.prop)
